@@ -263,13 +263,19 @@ def run(ctx):
     rets = C.return_nodes(G)
     ok = len(rets) == 1 and strip(rets[0].ch[0]).k == 'CallExpr' and strip(rets[0].ch[0]).get('callee') == 'pthread_self'
     chk.ob('K5', 'thread-id-is-pthread_self', ok, G.where(), G.name, 'thread identity is %s' % render(rets[0]) if rets else '')
-    N = prog.require_func('snoopy_tsrm_createNewThreadData')
+    N = common.thread_data_maker(prog)
     stored = False
     for n in [x for g in common.with_helpers(prog, N) for x in g.body.walk()]:
         if n.k == 'BinaryOperator' and n['op'] == '=':
             l, r = strip(n.ch[0]), decl_of(n.ch[1])
             if l.k == 'MemberExpr' and l['member'] == 'threadId' and r is not None and r['kind'] == 'parm':
                 stored = True
+            elif l.k == 'MemberExpr' and l['member'] == 'threadId' and r is not None and r['kind'] == 'var':
+                # the maker merged into the constructor: the id is the constructor's own "current thread" variable
+                from engine.dataflow import def_exprs as _de
+                ds_ = [strip(x) for x in _de(N, common.alias_root(N, r['id']))]
+                if ds_ and all(x.k == 'CallExpr' and x.get('callee') in ('pthread_self', 'snoopy_tsrm_getCurrentThreadId') for x in ds_):
+                    stored = True
     chk.ob('K5', 'record-keyed-by-creator', stored, N.where(), N.name, 'the new record does not store the creating thread id')
     for fn in ('snoopy_tsrm_doesThreadRepoEntryExist', 'snoopy_tsrm_getCurrentThreadRepoEntry'):
         f = prog.require_func(fn)
